@@ -1,5 +1,7 @@
 package redisemu
 
+import "math"
+
 func fnHGet(ctx *cmdContext, args map[string]any) (output respValue, err error) {
 	keyName := args["key"].(string)
 	fieldName := args["field"].(string)
@@ -194,6 +196,11 @@ func fnHRandField(ctx *cmdContext, args map[string]any) (output respValue, err e
 
 	if options != nil {
 		count, hasCount := options.mustGet("count").(int64)
+		if hasCount && count == math.MinInt64 {
+			// cannot be negated
+			output.data = respErrorString("ERR value is out of range")
+			return
+		}
 		if hasCount {
 			c32 = int(count)
 			c = &c32
